@@ -63,6 +63,57 @@ Theorem C10_full_io_raises : forall c name s,
 Proof. exact io_raises. Qed.
 Print Assumptions C10_full_io_raises.
 
+(* The process is KILLED between two file operations (no `finally`, no TemporaryDirectory clean-up): after any
+   prefix of the planned operations of the non-force path the tree below the project root is identical
+   (the leftovers are in the temporary directory only). *)
+Theorem C10_full_noforce_killed : forall c k s n,
+  wf_tmp c = true ->
+  restrict_root c (exec s (firstn n (plan_main c true k))) = restrict_root c s.
+Proof. exact noforce_untouched_killed. Qed.
+Print Assumptions C10_full_noforce_killed.
+
+Theorem C10_full_noforce_killed_io : forall c name s n,
+  wf_tmp c = true -> wf_log c = true ->
+  force c = false -> exists_b s (out_dir c) = true ->
+  restrict_root c (exec s (firstn n (plan_io c name s))) = restrict_root c s.
+Proof. exact noforce_untouched_killed_io. Qed.
+Print Assumptions C10_full_noforce_killed_io.
+
+(* The environment assumptions follow from more primitive facts: tempfile.gettempdir() is not the project root
+   nor inside it; mkdtemp returns a fresh child of it; the project root is an existing directory; ancestors of
+   existing paths exist; the two log paths are not directories. *)
+Theorem C10_env : forall c s, env_ok c s -> wf_tmp c = true /\ wf_log c = true.
+Proof. exact env_wf. Qed.
+Print Assumptions C10_env.
+
+Theorem C10_full_noforce_env : forall c k s,
+  env_ok c s -> force c = false -> exists_b s (out_dir c) = true ->
+  restrict_root c (fst (generate c k s)) = restrict_root c s.
+Proof. exact noforce_untouched_env. Qed.
+Print Assumptions C10_full_noforce_env.
+
+(* Every path strictly below the root AFTER a call was there before or is an allowed path of the call. *)
+Theorem C10_full_paths : forall c k s p,
+  wf_tmp c = true ->
+  In p (paths (fst (generate c k s))) -> sunder (root c) p = true ->
+  In p (paths s) \/ allowed c p = true.
+Proof. exact generate_paths. Qed.
+Print Assumptions C10_full_paths.
+
+(* Command line entry: the defaults of cli.py (regenerated from source) make a plain run a non-force run with
+   post-processing and an explicit core package; such a run over an existing output package touches nothing. *)
+Theorem C10_cli_default_untouched : forall c a k s,
+  wf_tmp c = true -> a_force a = None ->
+  exists_b s (out_dir (cli_config c a)) = true ->
+  restrict_root c (fst (generate (cli_config c a) k s)) = restrict_root c s.
+Proof. exact cli_default_untouched. Qed.
+Print Assumptions C10_cli_default_untouched.
+
+Theorem C10_cli_defaults : forall c a, a_force a = None -> a_no_postprocess a = None ->
+  force (cli_config c a) = false /\ post (cli_config c a) = true /\ core_pkg (cli_config c a) <> None.
+Proof. exact cli_defaults. Qed.
+Print Assumptions C10_cli_defaults.
+
 (* The call returns iff no stage failed, the package names are valid and (in the diff path) nothing
    differs; it fails with the injected stage iff that stage is reached. *)
 Theorem C10_result : forall c k s,
